@@ -17,6 +17,11 @@ CHECKS = {
     note='Trusted: z3, symx executor (de Moivre expansion of sin/cos of multiples of I/2), Kaula triple-sum oracle written in the harness.',
     technique='symbolic execution of the table source + univariate nonlinear real arithmetic queries in z3',
     design='2/C09'),
+ 'C14': dict(
+    text='Bounded SMT validity checking: all eight tidal_potential implementations executed symbolically (trig of integer combinations of base angles expanded over atom pairs with c^2+s^2=1); partial derivatives obtained by differentiating the encoding; z3 decides the six derivative relations and the Laplace identity per mode, modal-sum == non-modal, and the limit relations as vanishing joint Taylor coefficients.',
+    note='Trusted: z3, symx executor and its differentiation of the encoding. n>0 assumed. Joint (e,I) truncation of the medium-obliquity variants is read as total order 3 (their coefficient tables); only coefficients with I-order <= 2 are claimed.',
+    technique='symbolic execution + symbolic differentiation of the encoding + z3 nonlinear real arithmetic (polynomial identities modulo circle constraints)',
+    design='2/C14'),
 }
 NOT_YET = {}
 ALL = ['C%02d' % i for i in range(1, 21)]
